@@ -1,22 +1,34 @@
-(* Preservation of the overlay invariant of SemLive.v, part C: L2 (flagged registered blockers are attached or held by their agent). *)
+(* Preservation of the overlay invariant of SemLive.v, part C: L2 (flagged registered blockers are attached or held by their agent).
+   Each lemma is assembled from one lemma per control point of the stepping actor (files SemLiveL2a.v, SemLiveL2b.v, SemLiveL2c.v, SemLiveL2d.v;
+   the proof script of the clause is an Ltac in SemLiveTac.v). *)
 From Coq Require Import List Arith ZArith Bool Lia.
 Import ListNotations.
-Require Import MayV.Sync.SemModel MayV.Sync.SemInv MayV.Sync.SemTac MayV.Sync.SemLive MayV.Sync.SemLiveA MayV.Sync.SemLiveB.
+Require Import MayV.Sync.SemModel MayV.Sync.SemInv MayV.Sync.SemTac MayV.Sync.SemCase MayV.Sync.SemLive.
+Require Export MayV.Sync.SemLiveTac.
+Require Import MayV.Sync.SemLiveL2a MayV.Sync.SemLiveL2b MayV.Sync.SemLiveL2c MayV.Sync.SemLiveL2d.
 Open Scope Z_scope.
 
 Lemma pres_L2 s o ac s' : Inv s -> LInv s o -> step s ac = Some s' -> L2 s' (lstep s o ac).
 Proof.
-  intros Hi HL H. pose proof (IL2 _ _ HL) as P2. pose proof (IL3 _ _ HL) as P3. pose proof (IL1 _ _ HL) as P1.
-  unfold L1, L2, L3, att, holds34, own, attpc, inpark, agentpc in *.
-  lsetup Hi H; intro x; pose proof (P2 x) as Px; pose proof (P3 x) as Ux; pose proof (P1 a) as Aa; pose proof (P1 (ag o x)) as Ag.
-  all: unfold set_pc, set_ctx, set_res, set_av; upd_tac; upd_hyps; prj_all; lists.
-  all: try assumption.
-  all: a_facts Hi a; b_facts Hi x; b_facts Hi (ab (A s a)); b_facts Hi (aw (A s a)).
-  all: try match goal with E : NoDup (?n :: _) |- _ => b_facts Hi n; inversion E; subst end.
-  all: try match goal with E : q _ = _ :: _ |- _ => rewrite E in * end.
-  all: repeat match goal with e : ?v = _ |- _ => is_var v; subst v end; upd_hyps; prj_all.
-  all: repeat match goal with e : owner _ = _ |- _ => progress (rewrite e in * ) end.
-  all: repeat match goal with e : ag _ _ = _ |- _ => progress (rewrite e in * ) end.
-  all: ctxsplit s a; pcs; lists.
-  all: intros; brk; arith_prem; brk; try mem.
+  intros Hi HL H. destruct (is_step ac) eqn:Hn; [|eapply pres_L2_env; eassumption].
+  destruct ac as [a t|a|a|a|a|a]; try discriminate Hn. destruct (apc (A s a)) eqn:Epc.
+  - rewrite (step_idle s a Epc) in H. discriminate H.
+  - eapply pres_L2_W0; eassumption.
+  - eapply pres_L2_W0c; eassumption.
+  - eapply pres_L2_W1; eassumption.
+  - eapply pres_L2_W2; eassumption.
+  - eapply pres_L2_WP; eassumption.
+  - eapply pres_L2_WW; eassumption.
+  - eapply pres_L2_E1; eassumption.
+  - eapply pres_L2_E2; eassumption.
+  - eapply pres_L2_E3; eassumption.
+  - eapply pres_L2_E4; eassumption.
+  - eapply pres_L2_P0; eassumption.
+  - eapply pres_L2_K1; eassumption.
+  - eapply pres_L2_K2; eassumption.
+  - eapply pres_L2_K3; eassumption.
+  - eapply pres_L2_K4; eassumption.
+  - eapply pres_L2_Y0; eassumption.
+  - eapply pres_L2_Y0c; eassumption.
+  - eapply pres_L2_G0; eassumption.
 Qed.
